@@ -1620,4 +1620,422 @@ theorem decodeVariant_size : ∀ (vars : List (List Ty)) (d : Nat) (s : List Nat
 end
 
 
+/-! ### work bound: the cost semantics is linear in the sequence length on every outcome -/
+
+theorem costChunks_le (dec : List Nat → Outcome Val) (cst : List Nat → Nat) (w C : Nat) (hw : 0 < w)
+    (hc : ∀ c, cst c ≤ C * max 1 c.length) :
+    ∀ (n : Nat) (s : List Nat), s.length = n * w → costChunks dec cst w n s ≤ (1 + C) * s.length
+  | 0, s, _ => by simp [costChunks]
+  | n + 1, s, hl => by
+    have hlw : w ≤ s.length := by rw [hl, Nat.add_mul]; omega
+    have h1 := hc (s.take w)
+    have e1 : max 1 (List.take w s).length = w := by simp only [List.length_take]; omega
+    rw [e1] at h1
+    have ih := costChunks_le dec cst w C hw hc n (s.drop w) (by
+      simp only [List.length_drop, hl, Nat.add_mul]; omega)
+    simp only [List.length_drop] at ih
+    obtain ⟨L, hL⟩ : ∃ L, s.length = w + L := ⟨s.length - w, by omega⟩
+    rw [hL] at ih ⊢
+    rw [show w + L - w = L by omega] at ih
+    have e2 : (1 + C) * (w + L) = w + C * w + (1 + C) * L := by
+      rw [Nat.mul_add, Nat.add_mul, Nat.one_mul]
+    rw [e2]
+    simp only [costChunks]
+    split <;> omega
+
+theorem costDyn_le (dec : List Nat → Outcome Val) (cst : List Nat → Nat) (C : Nat)
+    (hc : ∀ c, cst c ≤ C * max 1 c.length) :
+    ∀ (n idx : Nat) (s : List Nat), costDyn dec cst n idx s ≤ (1 + C) * s.length + 1
+  | 0, idx, s => by simp [costDyn]
+  | n + 1, idx, s => by
+    cases s with
+    | nil => simp [costDyn]
+    | cons len rest =>
+      simp only [costDyn]
+      split
+      · omega
+      · split
+        · omega
+        · rename_i _ hlen
+          have h1 := hc (rest.take len)
+          have e1 : (List.take len rest).length = len := by simp only [List.length_take]; omega
+          rw [e1] at h1
+          have ih := costDyn_le dec cst C hc n (idx + 1 + len) (rest.drop len)
+          simp only [List.length_drop] at ih
+          obtain ⟨L, hL⟩ : ∃ L, rest.length = len + L := ⟨rest.length - len, by omega⟩
+          rw [hL] at ih
+          rw [show len + L - len = L by omega] at ih
+          have h2 : C * max 1 len ≤ C * len + C := by
+            have : C * max 1 len ≤ C * (len + 1) := Nat.mul_le_mul_left C (by omega)
+            rw [Nat.mul_add, Nat.mul_one] at this; exact this
+          have e2 : (1 + C) * (len :: rest).length = len + C * len + (1 + C) * L + 1 + C := by
+            simp only [List.length_cons, hL]
+            rw [show len + L + 1 = len + (L + 1) by omega, Nat.mul_add, Nat.mul_add, Nat.add_mul, Nat.one_mul, Nat.mul_one]
+            omega
+          rw [e2]
+          split <;> omega
+
+theorem costList_le (dec : List Nat → Outcome Val) (cst : List Nat → Nat) (sl : Option Nat) (C : Nat)
+    (hc : ∀ c, cst c ≤ C * max 1 c.length) (n : Nat) (s : List Nat) :
+    costList dec cst sl n s ≤ (1 + C) * s.length + 2 := by
+  unfold costList
+  cases sl with
+  | some w =>
+    simp only
+    split; · omega
+    split; · omega
+    split; · omega
+    split; · omega
+    have := costChunks_le dec cst w C (by omega) hc n s (by omega)
+    omega
+  | none =>
+    simp only
+    have := costDyn_le dec cst C hc n 0 s
+    omega
+
+theorem costItem_le (cst : List Nat → Nat) (sl : Option Nat) (C : Nat)
+    (hc : ∀ c, cst c ≤ C * max 1 c.length) (s : List Nat) :
+    costItem cst sl s ≤ 1 + C * max 1 s.length := by
+  unfold costItem
+  cases sl with
+  | some w =>
+    simp only
+    split
+    · omega
+    · have h1 := hc (s.take w)
+      have h2 : C * max 1 (List.take w s).length ≤ C * max 1 s.length :=
+        Nat.mul_le_mul_left C (by simp only [List.length_take]; omega)
+      omega
+  | none =>
+    cases s with
+    | nil => simp
+    | cons len rest =>
+      simp only
+      split
+      · omega
+      · have h1 := hc (rest.take len)
+        have h2 : C * max 1 (List.take len rest).length ≤ C * max 1 (len :: rest).length :=
+          Nat.mul_le_mul_left C (by simp only [List.length_take, List.length_cons]; omega)
+        omega
+
+theorem work_step {a C L M k : Nat} (h : a ≤ (1 + C) * L + k) (hL : L + 1 ≤ M) (hk : k ≤ 2) :
+    1 + a ≤ (3 + C) * M := by
+  have h1 : (1 + C) * (L + 1) ≤ (1 + C) * M := Nat.mul_le_mul_left _ hL
+  have e1 : (1 + C) * (L + 1) = (1 + C) * L + 1 + C := by rw [Nat.mul_add, Nat.mul_one]; omega
+  have e2 : (3 + C) * M = 2 * M + (1 + C) * M := by rw [show 3 + C = 2 + (1 + C) by omega, Nat.add_mul]
+  omega
+
+theorem work_step' {a C M : Nat} (h : a ≤ (1 + C) * M + 2) (hM : 1 ≤ M) : 1 + a ≤ (4 + C) * M := by
+  have e2 : (4 + C) * M = 3 * M + (1 + C) * M := by rw [show 4 + C = 3 + (1 + C) by omega, Nat.add_mul]
+  omega
+
+theorem le_mul_max {k K : Nat} (h : k ≤ K) (n : Nat) : k ≤ K * max 1 n := by
+  have := Nat.mul_le_mul h (one_le_max n); omega
+
+mutual
+theorem cost_le : ∀ (t : Ty) (s : List Nat), cost t s ≤ t.work * max 1 s.length
+  | .bfe, s => by simp [cost, Ty.work]; omega
+  | .u8, s => by simp [cost, Ty.work]; omega
+  | .u16, s => by simp [cost, Ty.work]; omega
+  | .u32, s => by simp [cost, Ty.work]; omega
+  | .u64, s => by simp [cost, Ty.work]; omega
+  | .u128, s => by simp [cost, Ty.work]; omega
+  | .bool, s => by simp [cost, Ty.work]; omega
+  | .phantom, s => by simp [cost, Ty.work]; omega
+  | .box t, s => by
+    have := cost_le t s
+    have hM := one_le_max s.length
+    simp only [cost, Ty.work, Nat.add_mul, Nat.one_mul]; omega
+  | .option t, s => by
+    have hM := one_le_max s.length
+    cases s with
+    | nil => simp only [cost, Ty.work, Nat.add_mul, Nat.one_mul]; omega
+    | cons tag rest =>
+      have := cost_le t rest
+      have h2 : t.work * max 1 rest.length ≤ t.work * max 1 (tag :: rest).length :=
+        Nat.mul_le_mul_left _ (by simp only [List.length_cons]; omega)
+      simp only [cost, Ty.work, Nat.add_mul, Nat.one_mul]
+      split <;> omega
+  | .vec t, s => by
+    cases s with
+    | nil => simp only [cost, Ty.work]; exact le_mul_max (by omega) _
+    | cons n rest =>
+      have := costList_le (fun c => decode t c) (fun c => cost t c) (staticLength t) t.work (cost_le t) n rest
+      simp only [cost, Ty.work]
+      exact work_step this (by simp only [List.length_cons]; omega) (Nat.le_refl 2)
+  | .array n t, s => by
+    have hM := one_le_max s.length
+    simp only [cost, Ty.work]
+    split
+    · exact le_mul_max (by omega) _
+    · have := costList_le (fun c => decode t c) (fun c => cost t c) (staticLength t) t.work (cost_le t) n s
+      have h2 : (1 + t.work) * s.length ≤ (1 + t.work) * max 1 s.length := Nat.mul_le_mul_left _ (by omega)
+      exact work_step' (by omega) hM
+  | .tuple ts, s => by
+    have := costFields_le ts s
+    have hM := one_le_max s.length
+    simp only [cost, Ty.work, Nat.add_mul, Nat.one_mul]; omega
+  | .struct ts, s => by
+    have := costFields_le ts s
+    have hM := one_le_max s.length
+    simp only [cost, Ty.work, Nat.add_mul, Nat.one_mul]; omega
+  | .poly t, s => by
+    simp only [Ty.work]
+    cases s with
+    | nil => simp only [cost]; exact le_mul_max (by omega) _
+    | cons ind rest =>
+      simp only [cost]
+      split; · exact le_mul_max (by omega) _
+      split; · exact le_mul_max (by omega) _
+      cases rest with
+      | nil => simp only; exact le_mul_max (by omega) _
+      | cons n rest' =>
+        simp only
+        have := costList_le (fun c => decode t c) (fun c => cost t c) (staticLength t) t.work (cost_le t) n rest'
+        have h1 := work_step (M := max 1 (ind :: n :: rest').length) this
+          (by simp only [List.length_cons]; omega) (Nat.le_refl 2)
+        have e : (4 + t.work) * max 1 (ind :: n :: rest').length =
+            max 1 (ind :: n :: rest').length + (3 + t.work) * max 1 (ind :: n :: rest').length := by
+          rw [show 4 + t.work = 1 + (3 + t.work) by omega, Nat.add_mul, Nat.one_mul]
+        omega
+  | .u32s n, s => by
+    simp only [cost, Ty.work]
+    split <;> omega
+  | .enum vars, s => by
+    have hM := one_le_max s.length
+    cases s with
+    | nil => simp only [cost, Ty.work, Nat.add_mul, Nat.one_mul]; omega
+    | cons d rest =>
+      have := costVariant_le vars d rest
+      have h2 : Ty.workss vars * max 1 rest.length ≤ Ty.workss vars * max 1 (d :: rest).length :=
+        Nat.mul_le_mul_left _ (by simp only [List.length_cons]; omega)
+      simp only [cost, Ty.work, Nat.add_mul, Nat.one_mul]; omega
+theorem costFields_le : ∀ (ts : List Ty) (s : List Nat), costFields ts s ≤ Ty.works ts * max 1 s.length
+  | [], s => by simp [costFields]
+  | t :: ts, s => by
+    have ih := costFields_le ts s
+    have hM := one_le_max s.length
+    simp only [costFields, Ty.works, Nat.add_mul, Nat.one_mul]
+    split
+    · rename_i vs s' hfs
+      have hr := (decodeFields_size ts s vs s' hfs).2
+      have hi := costItem_le (fun c => cost t c) (staticLength t) t.work (cost_le t) s'
+      have h2 : t.work * max 1 s'.length ≤ t.work * max 1 s.length := Nat.mul_le_mul_left _ (by omega)
+      omega
+    · omega
+theorem costVariant_le : ∀ (vars : List (List Ty)) (d : Nat) (s : List Nat),
+    costVariant vars d s ≤ Ty.workss vars * max 1 s.length
+  | [], d, s => by simp [costVariant]
+  | fs :: rest, d, s => by
+    cases d with
+    | zero =>
+      have := costFields_le fs s
+      simp only [costVariant, Ty.workss, Nat.add_mul]; omega
+    | succ d =>
+      have := costVariant_le rest d s
+      simp only [costVariant, Ty.workss, Nat.add_mul]; omega
+end
+
+
+/-! ### encodings consist of canonical elements -/
+
+theorem Canon.cons_iff {x : Nat} {s : List Nat} : Canon (x :: s) ↔ x < P ∧ Canon s := by
+  unfold Canon; simp
+theorem Canon.append_iff {a b : List Nat} : Canon (a ++ b) ↔ Canon a ∧ Canon b := by
+  unfold Canon; simp only [List.mem_append]
+  exact ⟨fun h => ⟨fun x hx => h x (.inl hx), fun x hx => h x (.inr hx)⟩, fun h x hx => hx.elim (h.1 x) (h.2 x)⟩
+
+theorem prefixed_canon {d : Bool} {e : List Nat} (h : Canon e) (hl : e.length < P) : Canon (prefixed d e) := by
+  cases d
+  · simpa using h
+  · simp only [prefixed_true]; exact Canon.cons_iff.2 ⟨hl, h⟩
+
+theorem encodeItems_canon (enc : Val → List Nat) (d : Bool) :
+    ∀ vs : List Val, (∀ v ∈ vs, (enc v).length < P → Canon (enc v)) → (encodeItems enc d vs).length < P →
+      Canon (encodeItems enc d vs)
+  | [], _, _ => by simp [Canon.nil]
+  | v :: vs, h, hl => by
+    simp only [encodeItems_cons, List.length_append, prefixed_length] at hl ⊢
+    have h1 : (enc v).length < P := by omega
+    exact Canon.append_iff.2 ⟨prefixed_canon (h v (by simp) h1) h1,
+      encodeItems_canon enc d vs (fun x hx => h x (by simp [hx])) (by omega)⟩
+
+theorem length_le_encodeItems (enc : Val → List Nat) (d : Bool) :
+    ∀ vs : List Val, (∀ v ∈ vs, d = true ∨ 1 ≤ (enc v).length) → vs.length ≤ (encodeItems enc d vs).length
+  | [], _ => by simp
+  | v :: vs, h => by
+    have ih := length_le_encodeItems enc d vs (fun x hx => h x (by simp [hx]))
+    simp only [encodeItems_cons, List.length_append, prefixed_length, List.length_cons]
+    rcases h v (by simp) with rfl | h1
+    · simp; omega
+    · omega
+
+theorem P_gt : 2^128 > P ∧ P > 2^64 - 2^32 ∧ P > 2^32 := by rw [P_val]; omega
+
+mutual
+theorem encode_canon : ∀ (t : Ty) (v : Val), hasTy t v = true → noZW t = true → wf t = true →
+    (encode t v).length < P → Canon (encode t v)
+  | .bfe, v, h, _, _, _ => by
+    obtain ⟨n, rfl, hn⟩ := isNumBelow_iff.1 (by simpa [hasTy] using h)
+    simp only [encode, numOf_num]; exact Canon.cons_iff.2 ⟨hn, Canon.nil⟩
+  | .u8, v, h, _, _, _ => by
+    obtain ⟨n, rfl, hn⟩ := isNumBelow_iff.1 (by simpa [hasTy] using h)
+    simp only [encode, numOf_num]; exact Canon.cons_iff.2 ⟨by rw [P_val]; omega, Canon.nil⟩
+  | .u16, v, h, _, _, _ => by
+    obtain ⟨n, rfl, hn⟩ := isNumBelow_iff.1 (by simpa [hasTy] using h)
+    simp only [encode, numOf_num]; exact Canon.cons_iff.2 ⟨by rw [P_val]; omega, Canon.nil⟩
+  | .u32, v, h, _, _, _ => by
+    obtain ⟨n, rfl, hn⟩ := isNumBelow_iff.1 (by simpa [hasTy] using h)
+    simp only [encode, numOf_num]; exact Canon.cons_iff.2 ⟨by rw [P_val]; omega, Canon.nil⟩
+  | .bool, v, h, _, _, _ => by
+    obtain ⟨n, rfl, hn⟩ := isNumBelow_iff.1 (by simpa [hasTy] using h)
+    simp only [encode, numOf_num]; exact Canon.cons_iff.2 ⟨by rw [P_val]; omega, Canon.nil⟩
+  | .u64, v, _, _, _, _ => by
+    simp only [encode]
+    exact Canon.cons_iff.2 ⟨by rw [P_val]; omega, Canon.cons_iff.2 ⟨by rw [P_val]; omega, Canon.nil⟩⟩
+  | .u128, v, _, _, _, _ => by
+    simp only [encode]
+    exact Canon.cons_iff.2 ⟨by rw [P_val]; omega, Canon.cons_iff.2 ⟨by rw [P_val]; omega,
+      Canon.cons_iff.2 ⟨by rw [P_val]; omega, Canon.cons_iff.2 ⟨by rw [P_val]; omega, Canon.nil⟩⟩⟩⟩
+  | .phantom, v, _, _, _, _ => by simp only [encode]; exact Canon.nil
+  | .box t, v, h, hz, hw, hb => by
+    simp only [hasTy] at h; simp only [noZW] at hz; simp only [wf] at hw; simp only [encode] at hb ⊢
+    exact encode_canon t v h hz hw hb
+  | .option t, v, h, hz, hw, hb => by
+    simp only [noZW] at hz; simp only [wf] at hw
+    cases v <;> simp [hasTy] at h
+    rename_i o
+    cases o with
+    | none => simp only [encode]; exact Canon.cons_iff.2 ⟨by rw [P_val]; omega, Canon.nil⟩
+    | some x =>
+      simp only [encode, List.length_cons] at hb ⊢
+      exact Canon.cons_iff.2 ⟨by rw [P_val]; omega, encode_canon t x (by simpa using h) hz hw (by omega)⟩
+  | .vec t, v, h, hz, hw, hb => by
+    cases v <;> simp [hasTy] at h
+    rename_i vs
+    simp only [noZW, Bool.and_eq_true, bne_iff_ne, ne_eq] at hz
+    simp only [wf] at hw
+    simp only [encode, List.length_cons] at hb ⊢
+    have hcount := length_le_encodeItems (fun x => encode t x) (isDyn t) vs (fun x hx => by
+      cases hs : staticLength t with
+      | none => left; simp [isDyn, hs]
+      | some w =>
+        right
+        have := encode_length_static t x w (h x hx) hs
+        have hw0 : w ≠ 0 := by intro h0; apply hz.2; rw [hs, h0]
+        omega)
+    exact Canon.cons_iff.2 ⟨by omega, encodeItems_canon _ _ vs
+      (fun x hx hl => encode_canon t x (h x hx) hz.1 hw hl) (by omega)⟩
+  | .array n t, v, h, hz, hw, hb => by
+    cases v <;> simp [hasTy] at h
+    rename_i vs
+    simp only [noZW, Bool.and_eq_true, bne_iff_ne, ne_eq] at hz
+    simp only [wf] at hw
+    simp only [encode] at hb ⊢
+    exact encodeItems_canon _ _ vs (fun x hx hl => encode_canon t x (h.2 x hx) hz.1 hw hl) hb
+  | .tuple ts, v, h, hz, hw, hb => by
+    cases v <;> simp [hasTy] at h
+    simp only [noZW] at hz
+    simp only [wf, Bool.and_eq_true] at hw
+    simp only [encode] at hb ⊢
+    exact encodeFields_canon ts _ h hz hw.2 hb
+  | .struct ts, v, h, hz, hw, hb => by
+    cases v <;> simp [hasTy] at h
+    simp only [noZW] at hz
+    simp only [wf] at hw
+    simp only [encode] at hb ⊢
+    exact encodeFields_canon ts _ h hz hw hb
+  | .poly t, v, h, hz, hw, hb => by
+    cases v <;> simp [hasTy] at h
+    rename_i cs
+    obtain ⟨h, hnz⟩ := h
+    simp only [noZW, Bool.and_eq_true, bne_iff_ne, ne_eq] at hz
+    have hnorm := normalize_of_not_lastIsZero cs hnz
+    simp only [encode, hnorm, List.length_cons] at hb ⊢
+    -- `wf (.poly t)` only says `t` is a field type; its own well-formedness follows
+    have hwt : wf t = true := by
+      simp only [wf] at hw
+      unfold isFieldTy at hw
+      split at hw
+      · rfl
+      · rfl
+      · simp at hw
+    have hcount := length_le_encodeItems (fun x => encode t x) (isDyn t) cs (fun x hx => by
+      cases hs : staticLength t with
+      | none => left; simp [isDyn, hs]
+      | some w =>
+        right
+        have := encode_length_static t x w (h x hx) hs
+        have hw0 : w ≠ 0 := by intro h0; apply hz.2; rw [hs, h0]
+        omega)
+    exact Canon.cons_iff.2 ⟨by omega, Canon.cons_iff.2 ⟨by omega, encodeItems_canon _ _ cs
+      (fun x hx hl => encode_canon t x (h x hx) hz.1 hwt hl) (by omega)⟩⟩
+  | .u32s k, v, h, _, _, hb => by
+    cases v <;> simp [hasTy] at h
+    rename_i ls
+    simp only [encode] at hb ⊢
+    exact encodeItems_canon _ _ ls (fun x hx _ => by
+      obtain ⟨n, rfl, hn⟩ := isNumBelow_iff.1 (h.2 x hx)
+      simp only [numOf_num]; exact Canon.cons_iff.2 ⟨by rw [P_val]; omega, Canon.nil⟩) hb
+  | .enum vars, v, h, hz, hw, hb => by
+    cases v <;> simp [hasTy] at h
+    rename_i k vs
+    simp only [noZW] at hz
+    simp only [wf, Bool.and_eq_true, decide_eq_true_eq] at hw
+    simp only [encode, List.length_cons] at hb ⊢
+    have hk := hasTyVariant_lt vars k vs h
+    exact Canon.cons_iff.2 ⟨by rw [P_val]; omega, encodeVariant_canon vars k vs h hz hw.2 (by omega)⟩
+theorem encodeFields_canon : ∀ (ts : List Ty) (vs : List Val), hasTys ts vs = true → noZWs ts = true →
+    wfs ts = true → (encodeFields ts vs).length < P → Canon (encodeFields ts vs)
+  | [], vs, _, _, _, _ => by simp [encodeFields, Canon.nil]
+  | t :: ts, vs, h, hz, hw, hb => by
+    cases vs with
+    | nil => simp [hasTys] at h
+    | cons v vs =>
+      simp only [hasTys, Bool.and_eq_true] at h
+      simp only [noZWs, Bool.and_eq_true] at hz
+      simp only [wfs, Bool.and_eq_true] at hw
+      simp only [encodeFields, List.length_append, prefixed_length] at hb ⊢
+      have h1 : (encode t v).length < P := by omega
+      exact Canon.append_iff.2 ⟨encodeFields_canon ts vs h.2 hz.2 hw.2 (by omega),
+        prefixed_canon (encode_canon t v h.1 hz.1 hw.1 h1) h1⟩
+theorem encodeVariant_canon : ∀ (vars : List (List Ty)) (k : Nat) (vs : List Val), hasTyVariant vars k vs = true →
+    noZWss vars = true → wfss vars = true → (encodeVariant vars k vs).length < P → Canon (encodeVariant vars k vs)
+  | [], k, vs, h, _, _, _ => by simp [hasTyVariant] at h
+  | fs :: rest, k, vs, h, hz, hw, hb => by
+    simp only [noZWss, Bool.and_eq_true] at hz
+    simp only [wfss, Bool.and_eq_true] at hw
+    cases k with
+    | zero =>
+      simp only [hasTyVariant] at h
+      simp only [encodeVariant] at hb ⊢
+      exact encodeFields_canon fs vs h hz.1 hw.1 hb
+    | succ k =>
+      simp only [hasTyVariant] at h
+      simp only [encodeVariant] at hb ⊢
+      exact encodeVariant_canon rest k vs h hz.2 hw.2 hb
+theorem hasTyVariant_lt : ∀ (vars : List (List Ty)) (k : Nat) (vs : List Val), hasTyVariant vars k vs = true →
+    k < vars.length
+  | [], k, vs, h => by simp [hasTyVariant] at h
+  | fs :: rest, k, vs, h => by
+    cases k with
+    | zero => simp
+    | succ k =>
+      simp only [hasTyVariant] at h
+      have := hasTyVariant_lt rest k vs h
+      simp; omega
+end
+
+
+/-! ### enum layout -/
+theorem encodeVariant_eq (vars : List (List Ty)) (k : Nat) (fs : List Ty) (vs : List Val) (h : vars[k]? = some fs) :
+    encodeVariant vars k vs = encodeFields fs vs := by
+  induction vars generalizing k with
+  | nil => simp at h
+  | cons f rest ih =>
+    cases k with
+    | zero => simp at h; subst h; simp [encodeVariant]
+    | succ k => simp at h; simp [encodeVariant, ih k h]
+
+
 end TF.Codec
